@@ -33,9 +33,15 @@ var AllRuleVars = []validator.Rule{
 	rules.KnownTypeNamesRuleWithoutSuggestions, rules.ValuesOfCorrectTypeRuleWithoutSuggestions,
 }
 
+// DefaultRuleNames: the 27 rules package rules registers, in registration order.
+var DefaultRuleNames []string
+
 func init() {
-	for _, r := range AllRuleVars {
+	for i, r := range AllRuleVars {
 		RuleByName[r.Name] = r
+		if i < 27 {
+			DefaultRuleNames = append(DefaultRuleNames, r.Name)
+		}
 	}
 }
 
@@ -230,7 +236,9 @@ func EventsObs(schema *ast.Schema, doc *ast.QueryDocument) string {
 		o.OnInlineFragment(func(_ *validator.Walker, x *ast.InlineFragment) { out = append(out, "inlineFragment@"+st(x.Position)) })
 		o.OnFragmentSpread(func(_ *validator.Walker, x *ast.FragmentSpread) { out = append(out, "fragmentSpread@"+st(x.Position)) })
 		o.OnDirective(func(_ *validator.Walker, x *ast.Directive) { out = append(out, "directive@"+st(x.Position)) })
-		o.OnDirectiveList(func(_ *validator.Walker, x []*ast.Directive) { out = append(out, "directiveList@"+strconv.Itoa(len(x))) })
+		o.OnDirectiveList(func(_ *validator.Walker, x []*ast.Directive) {
+			out = append(out, "directiveList@"+strconv.Itoa(len(x)))
+		})
 		o.OnValue(func(_ *validator.Walker, x *ast.Value) { out = append(out, "value@"+st(x.Position)) })
 		o.OnVariable(func(_ *validator.Walker, x *ast.VariableDefinition) { out = append(out, "variable@"+st(x.Position)) })
 	}}
